@@ -170,6 +170,8 @@ def lattice_inputs(p, variant):
     if ens in ("isobaric", "isotension"):
         lam = 2.0 ** (p["m"] / 3.0)
         base = np.diag([9.0, 10.0, 11.0]) if variant % 2 == 0 else np.array([[9.0, 0.0, 0.0], [2.5, 10.0, 0.0], [1.0, -2.0, 11.0]])
+        if (p["j"] + p["m"] + variant) % 3 == 0:
+            base = base[[1, 0, 2]]  # a left-handed cell (negative determinant): legal, its volume is |det|
         gamma = 0.0 if variant % 4 < 2 else 0.3
         F = lam * shear_matrix(gamma)
         new = F @ base  # quansino's convention: cell' = F @ cell
@@ -397,6 +399,79 @@ def default_criteria_layer(rep):
     return n
 
 
+class _Judge:
+    """user criteria around the shipped grand-canonical one: records, for every evaluated exchange trial of a REAL run, the
+    verdict, the uniform it drew and the textbook ln A computed from what is really in the box"""
+
+    def __init__(self, inner, box):
+        self.inner, self.box = inner, box
+
+    def evaluate(self, context):
+        b = self.box
+        k = b["k"]
+        delta = int(context.particle_delta)
+        n_now = len(context.atoms) // k                # particles in the trial configuration
+        n_before = n_now - delta                        # ... in the configuration the trial started from
+        ens = "insertion" if delta > 0 else "deletion"
+        la = mirror_loga(ens, T=b["T"], dE=0.0, mu=b["mu"], V=b["V"], N=n_before, mass=b["mass"]) if delta in (1, -1) else None
+        nlog = len(context.rng.log)
+        v = bool(self.inner.evaluate(context))
+        draws = [x for x in context.rng.log[nlog:] if x[0] in ("random", "uniform") and x[2] is not None]
+        b["records"].append({"ens": ens, "N": n_before, "la": la, "u": draws[-1][2] if draws else None, "verdict": v, "counter": int(context.number_of_exchange_particles)})
+        return v
+
+    def to_dict(self):
+        return self.inner.to_dict()
+
+
+def real_grand_canonical_runs(rep, rs, nruns, steps):
+    """Real GrandCanonical runs of a molecular ideal gas: every verdict against the rule with N = the number of particles
+    really in the box when the trial started (the counter the criteria reads must have followed the accepted exchanges)."""
+    from quansino.mc.gcmc import GrandCanonical
+    from quansino.moves.exchange import ExchangeMove
+    from quansino.operations.displacement import Translation, TranslationRotation
+
+    ntr = 0
+    for r_ in range(nruns):
+        molecular = r_ % 2 == 0
+        tmpl = Atoms("CO", positions=[[0, 0, 0], [0, 0, 1.13]]) if molecular else Atoms("Cu", positions=[[0, 0, 0]])
+        k = len(tmpl)
+        T = float(rs.choice([500.0, 1500.0]))
+        cellL = 9.0
+        V = cellL**3
+        mass = float(tmpl.get_masses().sum())
+        nbar = float(rs.choice([2.0, 5.0]))
+        mu = kB * T * math.log(nbar * thermal_wavelength(mass, T) ** 3 / V)
+        atoms = Atoms(cell=[cellL] * 3, pbc=True)
+        atoms.calc = FixedEnergy()
+        atoms.calc.value = 0.0
+        mc = GrandCanonical(atoms, exchange_atoms=tmpl, temperature=T, chemical_potential=mu, number_of_exchange_particles=0, max_cycles=3, seed=int(rs.randint(1, 10**6)))
+        mc.add_move(ExchangeMove(np.array([], dtype=int), TranslationRotation() if molecular else Translation()), name="exch")
+        box = {"k": k, "T": T, "mu": mu, "V": V, "mass": mass, "records": []}
+        mc.moves["exch"].criteria = _Judge(mc.moves["exch"].criteria, box)
+        g = ScriptedGenerator(int(rs.randint(1, 10**6)))
+        mc._rng = g
+        mc.context.rng = g
+        try:
+            mc.run(steps)
+        except Exception as ex:  # noqa: BLE001
+            rep.violation(f"raise:real-run:{type(ex).__name__}", f"a grand-canonical run of a {'molecular' if molecular else 'atomic'} ideal gas raised {ex!r} after {len(box['records'])} evaluated trials (criteria must never raise)", {"molecular": molecular})
+            continue
+        rep.count(("real-gc-run", r_), nontrivial=True)
+        for i, rec in enumerate(box["records"]):
+            ntr += 1
+            if rec["la"] is None or rec["u"] is None:
+                continue
+            lu = math.log(rec["u"]) if rec["u"] > 0 else -1e9
+            if abs(lu - min(0.0, rec["la"])) < 1e-9 * max(1.0, abs(rec["la"])) + 1e-12:
+                continue
+            want = lu < min(0.0, rec["la"])
+            if rec["verdict"] != want:
+                rep.violation(f"verdict:{rec['ens']}:real-run:{'molecular' if molecular else 'atomic'}", f"{rec['ens']} trial {i} of a real grand-canonical run ({'CO' if molecular else 'Cu'} ideal gas): verdict {rec['verdict']}, the rule with the {rec['N']} particles really in the box says {want} (ln A = {rec['la']:.4f}, ln u = {lu:.4f}; the simulation's particle counter read {rec['counter']})", {"record": rec, "molecular": molecular})
+                break
+    return ntr
+
+
 def run(tier: str) -> int:
     rep = Report("C02", tier, "model_checking")
     rs = np.random.RandomState(rep.seed % 2**32)
@@ -457,6 +532,8 @@ def run(tier: str) -> int:
         T = float(10 ** rs.uniform(1.5, 4))
         n = int(rs.randint(0, 4))
         base = np.diag(rs.uniform(6, 12, 3)) + np.tril(rs.uniform(-2, 2, (3, 3)), -1)
+        if k % 3 == 0:
+            base = base[[2, 1, 0]]  # left-handed
         F = np.eye(3) + rs.uniform(-0.08, 0.08, (3, 3))
         new = F @ base
         P = float(rs.choice([0.0, 0.01, 0.3, -0.05]))
@@ -502,6 +579,8 @@ def run(tier: str) -> int:
         if ens == "isotension":
             n = int(rs.randint(0, 4))
             base = np.diag(rs.uniform(6, 12, 3)) + np.tril(rs.uniform(-2, 2, (3, 3)), -1)
+            if k % 4 == 0:
+                base = base[[0, 2, 1]]  # left-handed
             F = np.eye(3) + rs.uniform(-0.05, 0.05, (3, 3))
             new = F @ base
             P = float(rs.choice([0.0, 0.02, 0.2]))
@@ -571,6 +650,7 @@ def run(tier: str) -> int:
     # ---- the reference volume of the first trial of a run is the volume the atoms have WHEN THE RUN STARTS ----------
     nrun = first_trial_reference(rep, rs, 12 if tier == "quick" else 120)
     rep.add(first_trial_runs=nrun, sequences=nseq, default_criteria_cases=default_criteria_layer(rep))
+    rep.add(real_run_trials=real_grand_canonical_runs(rep, rs, 4 if tier == "quick" else 24, 60 if tier == "quick" else 200))
     rep.add(states=r.distinct, transitions=r.generated, traces_validated_against_impl=n_real, exhaustive=True, lattice_points=len(pts), hydrostatic_pairs=nh, offlattice=noff,
             guard_band_discards=guard, isotension_points_skipped_strain_definition=skipped_strain,
             rule="every lattice point of Accept.tla (energies, P dV, stress work, mu in units of kT ln2 incl. 0, +-1, +-709, +-1025, +-1100, +-1e6; V'/V = 2^m; prefactor 2^a; N in 0..3; u = 2^-(j+1/2), j up to 1000; T in {T0, 2T0}) realised on real Canonical/HamiltonianCanonical/Isobaric/Isotension/GrandCanonical objects through their property setters after installing stale values (cubic, triclinic, sheared cells; atomic and molecular species; antisymmetric stress decoration); plus random hydrostatic isotension-vs-isobaric pairs and random off-lattice inputs judged by the log-form mirror with a guard band")
